@@ -75,6 +75,27 @@ type tokResponse struct {
 
 func tokResponseFor(tok string, size int) tokResponse {
 	h := tokHash(tok)
+	if strings.HasSuffix(tok, "H") {
+		// an HTML page without a <head> element (so that nothing may be inserted into it), unique per token
+		body := tokBytes(tok, "resp", size)
+		for k := range body {
+			body[k] = "abcdefghij klmnop<>/"[int(body[k])%20]
+		}
+		copy(body, "<!doctype html><html><body>")
+		return tokResponse{
+			Status: 200,
+			Fields: []rawhttp.Field{
+				{"Content-Type", "text/html; charset=utf-8"},
+				{"X-Tok", tok},
+				{"X-Tok-Hash", strconv.FormatUint(h, 16)},
+				{"Set-Cookie", "a=" + tok + "; Path=/"},
+				{"Set-Cookie", "b=" + tok + "-2; Path=/x"},
+				{"Cache-Control", "no-store"},
+			},
+			Body:    body,
+			Trailer: []rawhttp.Field{{"X-Tok-Trailer", tok}},
+		}
+	}
 	return tokResponse{
 		Status: tokStatuses[h%uint64(len(tokStatuses))],
 		Fields: []rawhttp.Field{
